@@ -180,6 +180,7 @@ type vhServeEnv struct {
 	finished    []string
 	handled     int
 	estBefore   bool
+	hFailed     bool
 }
 
 func vhNewServeEnv() *vhServeEnv {
@@ -195,6 +196,10 @@ func vhNewServeEnv() *vhServeEnv {
 	mux := &EnvelopeMux{}
 	mux.MessageHandlerFunc(nil, func(ctx context.Context, msg *Message, s Sender) error {
 		se.handled++
+		if nondetBool("handler.fails") {
+			se.hFailed = true
+			return errVhStub
+		}
 		return nil
 	})
 	se.srv = &Server{config: cfg, mux: mux}
@@ -230,6 +235,10 @@ func HarnessC14Serve() {
 		}
 		vAssert(se.estBefore, "c18:established-callback-before-any-handler")
 		vAssert(t.closed, "c14:served-connection-is-closed-at-the-end")
+		if se.hFailed {
+			vReach("c20:handler-failed-while-serving")
+			vAssert(vhCount(t.calls, "send:finished") == 1, "c20:handler-error-finishes-the-session")
+		}
 	}
 	vAssert(vThreadsLive() <= 0, "c14:no-goroutine-left-serving-the-connection")
 }
